@@ -4638,3 +4638,54 @@ def survey_residue_rules(ctx):
     if f is not None:
         call_rule(ctx, 'TableTreeMut::clear_root_updates_and_close', 'BTreeMap::clear', 'staged roots are dropped', exact=1, exits='any')
         call_rule(ctx, 'TableTreeMut::clear_root_updates_and_close', 'PageTracker::close', 'the allocation tracker is closed', exact=1, exits='any')
+
+
+def leaf_width_rules(ctx):
+    """A leaf page has no self-describing layout: whether keys / values are fixed width decides where the
+    offset tables are.  Within one function, a leaf that is written (LeafPageMut / LeafMutator) is given
+    the key and value widths of the same origin as the LeafAccessor that reads the same kind of page."""
+    ctx.set_rule('C10.R11', 'a leaf page is written with the same key / value widths it is read with (reader / writer agreement)')
+
+    def origin(f, s_, t, depth=0):
+        if depth > 6:
+            return '?'
+        if t[0] == 'call':
+            cs = core.CallSite(f, t[1], f.blocks[t[1]]['t'])
+            ga = cs.t.get('ga') or []
+            return '%s<%s>(%s)' % (core.strip_generics(cs.callee or '?'), ','.join(map(str, ga)), ','.join(origin(f, s_, s_.operand(a), depth + 1) for a in cs.t['a']))
+        return s_.describe(t)
+    n = 0
+    for f in ctx.facts.fn_list:
+        rd = [c for c in f.calls if c.matches('LeafAccessor::new') and not f.blocks[c.bb]['c']]
+        wr = [c for c in f.calls if c.matches(('LeafPageMut::new', 'LeafMutator::new')) and not f.blocks[c.bb]['c']]
+        if not rd or not wr:
+            continue
+        s_ = core.sym(f)
+        n += 1
+        rset = {(origin(f, s_, s_.operand(c.t['a'][-2])), origin(f, s_, s_.operand(c.t['a'][-1]))) for c in rd}
+        for c in wr:
+            w = (origin(f, s_, s_.operand(c.t['a'][-2])), origin(f, s_, s_.operand(c.t['a'][-1])))
+            ok_ = w in rset
+            ctx._ob(ok_, ctx.sample('agreement', f, c.line, 'writer widths %s match a reader in the same function' % (w,)))
+            if not ok_:
+                ctx.violate('agreement|%s|leaf-widths' % f.path, 'a leaf is written with widths %s while it is read with %s in the same function: the two disagree about the page layout' % (w, sorted(rset)), f, c.line)
+    ctx.check(n >= 5, 'floor|leaf-reader-writer-fns', 'functions that both read and write leaves analysed: %d' % n)
+
+
+def restore_commit_rules(ctx):
+    ctx.set_rule('C07.R11', 'a committed restore discards the in-memory freed records of the commits it rolled back, whatever its durability')
+    f = ctx.fn(WT + '::commit_inner_helper')
+    if f is None:
+        return
+    dr = ctx.sites(f, TM + '::drop_unpersisted_data_freed_after', exact=1)
+    cm = ctx.sites(f, [WT + '::durable_commit', WT + '::non_durable_commit'], exact=2)
+    e_none = core.guard_edges(f, [Guard(place='self.restored_transaction', vals={'None'})])
+    ctx.check(bool(e_none), 'guard-missing|%s|restored' % f.path, 'commit_inner_helper tests restored_transaction', f, f.line)
+    if dr and cm and e_none:
+        r = core.reach(f, cut_blocks={p.bb for p in dr} | core.error_blocks(f), cut_edges=e_none)
+        bad = [p for p in cm if p.bb in r['term']]
+        ctx._ob(not bad, ctx.sample('must-pass', f, dr[0].line, 'with a restore pending, both commit flavours are reached only through drop_unpersisted_data_freed_after'))
+        if bad:
+            ctx.violate('must-pass|%s|restore-keeps-freed-records|%s' % (f.path, bad[0].desc), 'a transaction that restored a savepoint can reach %s without discarding the in-memory freed records of the rolled-back commits: their pages are live again and would be freed by a later commit' % bad[0].desc, f, bad[0].line)
+    for p in dr:
+        ctx.flows(f, p, 1, from_arg='self', what='the horizon is the restored transaction id')
